@@ -145,6 +145,12 @@ def check_idwords_stepid(ctx, only_stepid=False):
             both = ('(t, d)' in tt and 'self.STIME' in tt and 'self.SDATE' in tt) or ('time_date != time_date[' in tt) or \
                    (('[:, 0]' in tt) and ('[:, 1]' in tt)) or ('times != times[' in tt)
             one = (('[:, 0]' in tt) != ('[:, 1]' in tt)) or (('STIME' in tt) != ('SDATE' in tt))
+            # a compared name that holds one column of the identifier table (x = T[:, 0] / T[:, 1]) is one word, whatever it is called
+            for nm_ in set(n_.id for n_ in ast.walk(te) if isinstance(n_, ast.Name)):
+                dcol = [s2 for s2 in iter_stmts(init.body) if isinstance(s2, ast.Assign) and isinstance(s2.targets[0], ast.Name) and s2.targets[0].id == nm_]
+                if dcol and any(isinstance(x_, ast.Subscript) and isinstance(x_.slice, ast.Tuple) and len(x_.slice.elts) == 2 and isinstance(x_.slice.elts[1], ast.Constant)
+                                for x_ in ast.walk(dcol[-1].value)):
+                    both, one = False, True
             if both:
                 ctx.ok('R-STEPID', fmt, w, tt[:80])
             elif one:
@@ -768,6 +774,25 @@ def run(ctx):
                                               'start at that instant every record is looked up start_time / time_step steps too far (data of a later step, too few steps)' % norm(a0)),
                                       oid='%s:%s' % (fmt, q))
     ctx.floor('timediff calls in __timerecords judged by R-TIMEORIGIN', nto, 5)
+    # the elapsed time becomes a step count by division with the file's own step (four of the five readers; point_source counts hours)
+    ctx.rule('R-STEPCOUNT', 'record readers: the elapsed time from timediff is divided by self.time_step to give the number of steps to skip')
+    nsc = 0
+    for fmt in ('uamiv', 'height_pressure', 'wind', 'one3d'):
+        m = src.mod(CAMX + fmt + '/Read.py')
+        for q, fn in sorted(m.functions.items()):
+            if not q.endswith('__timerecords') or '<locals>' in q:
+                continue
+            for c in ast.walk(fn):
+                if isinstance(c, ast.Call) and isinstance(c.func, ast.Name) and c.func.id == 'timediff':
+                    nsc += 1
+                    par = getattr(c, '_parent', None)
+                    wq = 'src/PseudoNetCDF/%s %s' % (m.relpath, q)
+                    if isinstance(par, ast.BinOp) and isinstance(par.op, (ast.Div, ast.FloorDiv)) and par.left is c and norm(par.right) == 'self.time_step':
+                        ctx.ok('R-STEPCOUNT', '%s:%s' % (fmt, q), wq, norm(par)[:70])
+                    else:
+                        ctx.violation(Finding('R-STEPCOUNT', m.relpath, q, api.stmt_of(c), 'the elapsed time is used as the number of steps without dividing by self.time_step: for a file whose output interval is not '
+                                              'one unit of time the record reader seeks to the record of another step (or beyond the data)'), oid='%s:%s' % (fmt, q))
+    ctx.floor('timediff calls judged by R-STEPCOUNT', nsc, 4)
     # ---------------- R-DATAWINDOW: temperature record reader: byte offset and window of the mapped data = what the record layout says
     ctx.rule('R-DATAWINDOW', 'temperature Read.py: position offset + dropped leading words = marker + id (12 bytes); mapped words - dropped words = cells of the record')
     tm_ = src.mod(CAMX + 'temperature/Read.py')
